@@ -11,6 +11,7 @@ import (
 	"encoding/json"
 	"errors"
 	"fmt"
+	"net"
 	"time"
 
 	"github.com/go-sql-driver/mysql"
@@ -249,6 +250,7 @@ type marshalRow struct {
 	PTxt    *textMarshal               `sql:",string"`
 	Hex     hexText                    `sql:",string"`
 	PHex    *hexText                   `sql:",string"`
+	IP      net.IP                     `sql:",string"`
 }
 
 // valuerRow: driver.Valuer / sql.Scanner types (short-circuit path).
@@ -281,6 +283,14 @@ type userRow struct {
 	ImplicitNull string                    `sql:",implicitnull"`
 }
 
+// jsonBytesRow: []byte x json tag (kept apart from tagsRow so that a defect of
+// this one combination does not mask the other tag columns).
+type jsonBytesRow struct {
+	Id int64  `sql:",primary"`
+	J  []byte `sql:",json"`
+	S  string
+}
+
 type tableDef struct {
 	name  string
 	proto interface{}
@@ -293,4 +303,5 @@ var zooTables = []tableDef{
 	{"marshal", marshalRow{}},
 	{"valuers", valuerRow{}},
 	{"users", userRow{}},
+	{"jsonbytes", jsonBytesRow{}},
 }
